@@ -561,8 +561,11 @@ def sync_aware_insertion(state: VRPState, rng: Random) -> VRPState:
             state.unassigned.remove(cid)
             state.sync_assignments[cid] = {v for v, _ in best_insertions}
 
+    # multi-resource customers without enough feasible vehicles stay unassigned
+    unplaced = state.unassigned - set(single)
     state.unassigned = set(single)
     state = regret_insertion(state, rng)
+    state.unassigned |= unplaced
 
     state.update_arrival_times()
     return state
